@@ -12,6 +12,7 @@ package kv
 import (
 	"context"
 	"encoding/binary"
+	"sync"
 
 	atomicx "github.com/synnaxlabs/x/atomic"
 	"github.com/synnaxlabs/x/errors"
@@ -25,6 +26,11 @@ type AtomicInt64Counter struct {
 	db  Writer
 	key []byte
 	atomicx.Int64Counter
+	// mu makes "advance the value, then write it to storage" one step. Without it the
+	// writes of two concurrent Adds may reach storage in the opposite order of their
+	// values, leaving the older value behind: after a restart the counter would resume
+	// there and hand out values it has handed out before.
+	mu sync.Mutex
 }
 
 // OpenCounter opens or creates a persisted counter at the given key. If
@@ -45,6 +51,8 @@ func OpenCounter(ctx context.Context, db ReadWriter, key []byte) (*AtomicInt64Co
 // Add increments the counter by the given delta. Returns the new counter value
 // as well as any errors encountered while flushing the counter to storage.
 func (c *AtomicInt64Counter) Add(ctx context.Context, delta int64) (int64, error) {
+	c.mu.Lock()
+	defer c.mu.Unlock()
 	next := c.Int64Counter.Add(delta)
 	var buf [8]byte
 	binary.LittleEndian.PutUint64(buf[:], uint64(next))
@@ -53,6 +61,8 @@ func (c *AtomicInt64Counter) Add(ctx context.Context, delta int64) (int64, error
 
 // Set sets the counter to the given value.
 func (c *AtomicInt64Counter) Set(ctx context.Context, value int64) error {
+	c.mu.Lock()
+	defer c.mu.Unlock()
 	c.Int64Counter.Set(value)
 	var buf [8]byte
 	binary.LittleEndian.PutUint64(buf[:], uint64(value))
